@@ -40,6 +40,7 @@ def _case(draw, max_ops):
     accum = draw(st.sampled_from([1, 1, 2, 3]))
     in_hook = draw(st.booleans())
     n_ops = draw(st.integers(1, max_ops))
+    bystander = draw(st.sampled_from([False, False, False, True]))
     ops = []
     kinds = ['train'] * 6 + ['eval', 'reset_batch', 'ckpt', 'snapshot', 'rollback'] + (['sched_step'] * 2 if scheduler else [])
     for _ in range(n_ops):
@@ -50,6 +51,9 @@ def _case(draw, max_ops):
                 op['sizes'] = draw(st.lists(st.integers(1, 4), min_size=accum, max_size=accum))
             if not in_hook and draw(st.integers(0, 5)) == 0:
                 op['reset_after'] = draw(st.integers(1, accum))
+            if bystander:
+                # micro-batch indices after which the bystander model runs one micro-batch of its own
+                op['by'] = sorted(draw(st.sets(st.integers(0, accum - 1), max_size=accum)))
             ops.append(op)
         elif k == 'eval':
             ops.append({'op': 'eval', 'seed': draw(st.integers(0, 9999))})
@@ -59,7 +63,7 @@ def _case(draw, max_ops):
             ops.append({'op': k})
     return {'spec': draw(gens.model_spec(max_layers=3, max_dim=5, max_out=4)), 'method': method, 'prediv': prediv,
             'in_hook': in_hook, 'accum': accum, 'N': draw(st.integers(1, 4)), 'style': draw(gens.style_strategy()),
-            'zero_to_none': draw(st.booleans()),
+            'zero_to_none': draw(st.booleans()), 'bystander': bystander,
             'hp': hp, 'scheduler': scheduler, 'program': ops}
 
 
@@ -72,7 +76,9 @@ class C05(Prop):
             'operations {train iteration (optionally unequal micro-batch sizes, optionally a mid-iteration reset_batch in no-hook mode followed by '
             'a full set of micro-batches), eval-mode pass, reset_batch, scheduler.step(), checkpoint round trip into a fresh preconditioner, '
             'snapshot = keep state_dict() alive in memory, rollback = load that kept dict into the live preconditioner and restore the weights}; '
-            'damping / decay / clip / lr may also be callables reading live state changed between iterations. The '
+            'damping / decay / clip / lr may also be callables reading live state changed between iterations; in a quarter of the cases a '
+            'second, independent model of the same architecture with its own preconditioner lives in the same process and runs its own '
+            'micro-batches and steps in between (it must not influence the first). The '
             'float64 reference state machine (vkit/refkfac) runs in lock-step from layer inputs/output gradients recorded on a twin model; after '
             'every train iteration: gradients == reference within the conditioning-scaled tolerance, steps == reference counter, factors change '
             '(bit-exact comparison) iff the reference says factor-update step, factors == reference recurrence. Non-trivial: the history contains '
@@ -84,7 +90,7 @@ class C05(Prop):
     examples = {'quick': 250, 'thorough': 600}
     shards = {'quick': 4, 'thorough': 16}
     shrink_budget_s = {'quick': 30.0, 'thorough': 180.0}
-    required_labels = {'quick': ['nontrivial=True', 'stale_step=True', 'has_ckpt=True', 'has_sched=True', 'rolled_back=True', 'live_hp=True'],
+    required_labels = {'quick': ['nontrivial=True', 'stale_step=True', 'has_ckpt=True', 'has_sched=True', 'rolled_back=True', 'live_hp=True', 'bystander=True'],
                        'thorough': ['nontrivial=True', 'stale_step=True', 'has_ckpt=True', 'has_sched=True', 'method=inverse']}
 
     def strategy(self, tier):
@@ -111,7 +117,7 @@ class C05(Prop):
             k = op['op']
             if k == 'train':
                 hp_seen.append(tuple(ls.ref.get(x) for x in ('factor_update_steps', 'inv_update_steps', 'damping', 'factor_decay', 'kl_clip', 'lr')))
-                bad = ls.train_iter(op['seed'], op.get('sizes'), op.get('reset_after'))
+                bad = ls.train_iter(op['seed'], op.get('sizes'), op.get('reset_after'), by=op.get('by', ()))
             elif k == 'eval':
                 bad = ls.eval_pass(op['seed'])
             elif k == 'reset_batch':
@@ -135,6 +141,7 @@ class C05(Prop):
         changed = any(a != b for a, b in zip(hp_seen, hp_seen[1:]))
         nt = bool(ev) and (stale or mixed or changed) and ls.stats['informative_steps'] > 0
         labels.update({'nontrivial': nt, 'stale_step': stale, 'mixed_step': mixed, 'hp_changed': changed, 'rolled_back': rolled_back,
+                       'bystander': bool(case.get('bystander')),
                        'live_hp': any(isinstance(v, dict) and 'live' in v for v in case['hp'].values())})
         return passed(nt, labels, {'worst_grad': ls.stats['worst_grad'], 'worst_factor': ls.stats['worst_factor'], 'steps': len(ev)})
 
